@@ -16,6 +16,14 @@ CHECKS = {
             "an exact language-equivalence decision evaluated by TLC on the recorded structure.",
             "Trusted: TLC, its Json module, harness/fa.py projection. Bounded: automata sizes and name pools as "
             "written in the evidence file; not a proof for all automata.", "DESIGN.md section 3 C01"),
+    "C04": ("TLA+ API state machine (FAGen) enumerated by TLC, replayed through the public API under label "
+            "permutations and hash seeds; is_empty/is_deterministic/is_acyclic/get_accepted_words judged by TraceFA "
+            "against FASem (reachability, three-clause determinism, cycle search, bounded language)",
+            "Exhaustive within small constants (all epsilon-NFAs with <=2 states/<=3 transitions over {a,b}; sampled or "
+            "complete 3-state families), every enumeration bound n in 0..4 and n=None on finite languages; each answer "
+            "is compared by TLC with the exact set computed from the recorded structure.",
+            "Trusted: TLC, projection. Termination is decided by a step budget plus alarm. Bounded sizes.",
+            "DESIGN.md section 3 C04"),
 }
 
 NOT_YET = "check not built yet in this round (see DESIGN.md section 9, build order); no claim is made"
